@@ -157,9 +157,24 @@ class Collector:
             targets = {t.id for t in node.targets if isinstance(t, _ast.Name)}
         elif isinstance(node, (_ast.AugAssign, _ast.AnnAssign)) and isinstance(node.target, _ast.Name):
             targets = {node.target.id}
+        repo = getattr(self, "repo", None)
+        d = repo.defs.get(construct) if repo is not None else None
+        known = set()
+        if d is not None:
+            from . import names, match
+            top = d
+            while top.parent is not None:
+                top = top.parent
+            mod = d.module.name
+            known = names.known_locals(mod, top.qualname[len(mod) + 1:]) | set(match._GLOBALS) | set(top.params) | set(d.params)
+            # module-level functions, classes and imports denote what the model resolves them to; module-level constants do not
+            known |= {k for k, b in d.module.bindings.items() if b.kind in ("def", "class", "import")}
         for kind, a, b in diffs:
-            if kind == "name" and (a in targets or a in unk):
-                return False  # the bound name is what identifies an assignment
+            if kind == "name":
+                if a in targets or a in unk:
+                    return False  # the bound name is what identifies an assignment
+                if a not in known:
+                    return False  # a module-level name (a constant moved out of the function, a helper): what it denotes is not known here
         return True
 
     def text(self, rule, construct, loc, what, actual, accepted, fixed=(), stmt=None, facts=None):
